@@ -210,8 +210,8 @@ def e_samp(c):
 
 
 PARTS = [
-    Part("dac", e_dac, s_dac(), quick=1500, thorough=8000, shards=8, rule="NRZ/RZ slot oracle, container equivalence, SAMPLER stride + bit recovery"),
-    Part("gauss", e_gauss, s_gauss(), quick=800, thorough=5000, shards=8, rule="isolated Gaussian pulse: peak position/amplitude/width; bit recovery at T=sps"),
-    Part("errors", e_err, s_err, quick=250, thorough=1000, shards=2, rule="documented TypeError/ValueError paths"),
-    Part("sampler", e_samp, s_samp(), quick=600, thorough=4000, shards=4, rule="arbitrary records (partial last slot, complex/int dtypes, noise)"),
+    Part("dac", e_dac, s_dac(), quick=1500, thorough=64000, shards=8, rule="NRZ/RZ slot oracle, container equivalence, SAMPLER stride + bit recovery"),
+    Part("gauss", e_gauss, s_gauss(), quick=800, thorough=40000, shards=8, rule="isolated Gaussian pulse: peak position/amplitude/width; bit recovery at T=sps"),
+    Part("errors", e_err, s_err, quick=250, thorough=8000, shards=2, rule="documented TypeError/ValueError paths"),
+    Part("sampler", e_samp, s_samp(), quick=600, thorough=32000, shards=4, rule="arbitrary records (partial last slot, complex/int dtypes, noise)"),
 ]
